@@ -109,6 +109,32 @@ def gen_near_parabolic(rng):
             "dt_over_pericentre_time": dt / tq}, p, mu, dt
 
 
+def gen_history(rng, hdt, m0):
+    """what happened to the simulation object before the measured step: 1-3 operations"""
+    ops = []
+    for _ in range(rng.randint(1, 3)):
+        u = rng.random()
+        if u < 0.6:
+            integ = rng.choice(["ias15", "leapfrog", "eos", "whfast", "whfast", "saba", "mercurius", "bs"])
+            h = {"op": "steps", "integrator": integ, "n": rng.randint(1, 3), "dt": hdt.hex()}
+            if integ == "whfast":
+                h["kernel"] = rng.choice(["default", "default", "modifiedkick", "composition", "lazy"])
+                h["coordinates"] = "jacobi" if h["kernel"] != "default" else \
+                    rng.choice(["jacobi", "democraticheliocentric", "whds", "barycentric"])
+                h["safe_mode"] = rng.choice([0, 1])
+                h["corrector"] = rng.choice([0, 0, 3, 11]) if h["coordinates"] == "jacobi" and h["kernel"] == "default" else 0
+            if integ == "saba":
+                h["saba_type"] = rng.choice(SABA_TYPES)
+                h["safe_mode"] = rng.choice([0, 1])
+            ops.append(h)
+        elif u < 0.8:
+            ops.append({"op": "reset_integrator"})
+        else:
+            ops.append({"op": "third_body", "m": m0 * 10 ** rng.uniform(-15, -9), "factor": rng.uniform(20, 50),
+                        "n": rng.randint(1, 2), "dt": hdt.hex(), "integrator": "whfast"})
+    return ops
+
+
 def overflow_predicate(p, mu, dt):
     """input-only characterisation of the known defect: hyperbolic orbit whose bisection bracket end dt/q puts the
     first midpoint beyond the overflow threshold of the Stumpff doubling (sqrt(-beta)*|dt|/q / 2 > ~700)."""
@@ -399,6 +425,11 @@ def run(ctx):
             simcases.append({"integrator": integ, "coordinates": coord, "G": G.hex(), "m0": m0.hex(), "m1": m1.hex(),
                              "p0": hexl(p0), "p1": hexl(p1), "dt": dt.hex()})
             simmeta.append((dict(meta, integrator=integ, coordinates=coord, mass_ratio=q, G=G), rel, mu_eff, dt))
+            if len(simcases) % 2 == 1:   # every other case runs on a simulation object with a HISTORY
+                P_like = 2 * math.pi * math.sqrt(meta["a"] ** 3 / mu)
+                hdt = math.copysign(min(abs(dt), 0.002 * P_like), dt)
+                simcases[-1]["history"] = gen_history(rng, hdt, m0)
+                simmeta[-1][0]["history"] = simcases[-1]["history"]
             if integ == "saba":      # every coefficient table (odd and even stage counts, with and without correctors)
                 st = rng.choice(SABA_TYPES)
                 simcases[-1]["saba_type"] = st
@@ -458,9 +489,13 @@ def run(ctx):
             errors.setdefault("first_" + integ, r["error"])
             continue
         s0 = [float.fromhex(v) for v in r["state"][0]]
+        b0 = [float.fromhex(v) for v in r["before"][0]]
         for lane, (meta, rel, mu_eff, dt) in enumerate(metas):
             s1 = [float.fromhex(v) for v in r["state"][1 + lane]]
             out = [b - a_ for a_, b in zip(s0, s1)]
+            # the two-body state the library actually starts the measured step from (after any history)
+            b1 = [float.fromhex(v) for v in r["before"][1 + lane]]
+            rel = [b - a_ for a_, b in zip(b0, b1)]
             # a full step applies the solver to several sub-steps (WHFast/MERCURIUS/TRACE: 2 halves; SABA(10,6,4): 8 stages,
             # some backwards) and converts coordinates twice: the single-call tolerance is widened accordingly
             Kmult = 16 if meta["integrator"] == "saba" else 4
